@@ -8,7 +8,6 @@
 package c07
 
 import (
-	"verifharness/c15"
 	"bufio"
 	"bytes"
 	"context"
@@ -35,6 +34,7 @@ import (
 	"strings"
 	"sync"
 	"time"
+	"verifharness/c15"
 
 	"github.com/ProtonMail/go-crypto/openpgp"
 	"github.com/ProtonMail/go-crypto/openpgp/armor"
@@ -254,6 +254,11 @@ func Gen(w *bufio.Writer, seed uint64, tier string) {
 		for _, k := range []int{1, 4} {
 			fmt.Fprintf(w, "C07 keylookup %d %d\n", e, k)
 			fmt.Fprintf(w, "C07 keylookup %d %d rev\n", e, k)
+			if e == 0 && k == 1 {
+				for _, kn := range []string{"plain", "keyC", "keyB", "keyA"} {
+					fmt.Fprintf(w, "C07 walias %s\n", kn)
+				}
+			}
 		}
 	}
 
@@ -1231,6 +1236,10 @@ func Impl() {
 	defer os.RemoveAll(dir)
 	im := &impl{dir: dir}
 	hx.EachLine(func(f []string) string {
+		if len(f) == 2 && f[0] == "walias" {
+			// key names through the worker RPC (shared with C15's walias op)
+			return c15.RunWAlias(f[1:])
+		}
 		if (len(f) == 3 || len(f) == 4) && f[0] == "keylookup" {
 			// the worker's Sign RPC pins the key id the client already embedded: token/tokencache must never answer a
 			// pinned lookup with another key, whatever overlaps it (shared with C15's cacherace op)
